@@ -2410,14 +2410,21 @@ GROUP_DEPS = {'Grp': ['Std', 'PS'], 'Fam': ['Std', 'PS', 'Idx'], 'GrpPoll': ['Gr
               # the array proofs reuse the container-independent lemmas of the Vec proof of the SAME family (the lemma files
               # import that family's Vec statements, hence its generated file)
               'JoinA': ['Arr1', 'Fam2'], 'TryJoinA': ['Arr2', 'Fam3'], 'MergeA': ['Arr3', 'Fam'], 'ZipA': ['Arr4'],
-              'ChainA': ['Arr5', 'Idx'], 'RaceA': ['Arr6', 'Fam'], 'RaceOkA': ['Arr7']}
+              'ChainA': ['Arr5', 'Idx'], 'RaceA': ['Arr6', 'Fam'], 'RaceOkA': ['Arr7'],
+              'JoinVD': ['Fam2D', 'Fam2', 'Dir'], 'JoinAD': ['Arr1D', 'Arr1', 'Fam2', 'Dir'],
+              'TryJoinVD': ['Fam3D', 'Fam3', 'Dir'], 'TryJoinAD': ['Arr2D', 'Arr2', 'Fam3', 'Dir'],
+              'MergeVD': ['FamD', 'Fam', 'Dir'], 'MergeAD': ['Arr3D', 'Arr3', 'Fam', 'Dir'],
+              'ZipVD': ['Fam4D', 'Fam4', 'Dir'], 'ZipAD': ['Arr4D', 'Arr4', 'Fam4', 'Dir']}
 # generated groups that also exist in the no_std / alloc-only flavour (group name + 'D', namespaces + 'D')
 DIR_FLAVOUR = {'Fam': ['MergeV', 'RaceV'], 'Fam2': ['JoinV'], 'Fam3': ['TryJoinV'], 'Fam4': ['ZipV'],
                'Arr1': ['JoinA'], 'Arr2': ['TryJoinA'], 'Arr3': ['MergeA'], 'Arr4': ['ZipA']}
 # groups of tie theorems that have no generated file of their own (they talk about functions of another group's file)
 VIRTUAL_GROUPS = {'GrpPoll': ['GrpF', 'GrpS'], 'RaceV': ['RaceV'], 'MergeV': ['MergeV'], 'JoinV': ['JoinV'], 'ChainV': ['ChainV'], 'ZipV': ['ZipV'], 'TryJoinV': ['TryJoinV'],
                   'JoinA': ['JoinA'], 'TryJoinA': ['TryJoinA'], 'MergeA': ['MergeA'], 'ZipA': ['ZipA'], 'ChainA': ['ChainA'],
-                  'RaceA': ['RaceA'], 'RaceOkA': ['RaceOkA']}
+                  'RaceA': ['RaceA'], 'RaceOkA': ['RaceOkA'],
+                  # the no_std / alloc-only flavour (FcProps/KTie<Fam>{V,A}D.lean): the same translated functions
+                  'JoinVD': ['JoinV'], 'JoinAD': ['JoinA'], 'TryJoinVD': ['TryJoinV'], 'TryJoinAD': ['TryJoinA'],
+                  'MergeVD': ['MergeV'], 'MergeAD': ['MergeA'], 'ZipVD': ['ZipV'], 'ZipAD': ['ZipA']}
 # the no_std / alloc-only builds compile the SAME family sources against src/utils/wakers/{vec,array}/no_std.rs: the readiness
 # set has no flags and `WakerVec::get` / `WakerArray::get` hand out the stored parent waker itself
 WAKERDIR_PRELUDE = '''/-- hand-written model of the no_std `WakerVec` (utils/wakers/vec/no_std.rs): a wrapper of the flag-less readiness set;
@@ -2503,6 +2510,10 @@ REQUIRED = {
     'MergeA': ['MergeA.Merge.poll_next', 'MergeA.Merge.new'], 'ZipA': ['ZipA.Zip.poll_next', 'ZipA.Zip.drop', 'ZipA.Zip.new'],
     'ChainA': ['ChainA.Chain.poll_next'], 'RaceA': ['RaceA.Race.poll'],
     'RaceOkA': ['RaceOkA.RaceOk.poll', 'RaceOkA.RaceOk.drop'],
+    'JoinVD': ['JoinV.Join.poll', 'JoinV.Join.drop'], 'JoinAD': ['JoinA.Join.poll', 'JoinA.Join.drop', 'JoinA.Join.new'],
+    'TryJoinVD': ['TryJoinV.TryJoin.poll', 'TryJoinV.TryJoin.drop'], 'TryJoinAD': ['TryJoinA.TryJoin.poll', 'TryJoinA.TryJoin.drop', 'TryJoinA.TryJoin.new'],
+    'MergeVD': ['MergeV.Merge.poll_next'], 'MergeAD': ['MergeA.Merge.poll_next', 'MergeA.Merge.new'],
+    'ZipVD': ['ZipV.Zip.poll_next', 'ZipV.Zip.drop'], 'ZipAD': ['ZipA.Zip.poll_next', 'ZipA.Zip.drop', 'ZipA.Zip.new'],
     'MergeV': ['MergeV.Merge.poll_next'],
     'JoinV': ['JoinV.Join.poll', 'JoinV.Join.drop', 'JoinV.Join.new'],
     'ChainV': ['ChainV.Chain.poll_next'],
@@ -2747,7 +2758,7 @@ def translate(repo):
                       "/- GENERATED by tools/rs2lean.py from the current source of the crate — do not edit.\n"
                       "   no_std / alloc-only flavour: the text of FcGen/KSrc%s.lean with the waker module of no_std.rs. -/" % g)
         texts[g + 'D'] = t
-    for g in list(GROUPS) + list(VIRTUAL_GROUPS) + [g + 'D' for g in DIR_FLAVOUR]:
+    for g in list(GROUPS) + [g + 'D' for g in DIR_FLAVOUR] + list(VIRTUAL_GROUPS):
         if g.endswith('D') and g[:-1] in DIR_FLAVOUR:
             base = report['groups'].get(g[:-1], {})
             dirg = report['groups'].get('Dir', {})
